@@ -162,4 +162,16 @@ void* vp_loc_bin(int huge, unsigned idx) { return huge ? (void*)&LOC.hugeCache.b
 void* vp_loc_bitmask(int huge) { return huge ? (void*)&LOC.hugeCache.bitMask : (void*)&LOC.largeCache.bitMask; }
 void vp_lmb_link(void* p, void* next, void* prev) { ((LargeMemoryBlock*)p)->next = (LargeMemoryBlock*)next; ((LargeMemoryBlock*)p)->prev = (LargeMemoryBlock*)prev; }
 void* vp_lmb_next(void* p) { return ((LargeMemoryBlock*)p)->next; }
+
+// ---- MemoryPool::getEmptyBlock (frontend.cpp): slab refill with back-reference failure
+void* vp_get_empty_block(unsigned long size) { return defaultMemPool->getEmptyBlock(size); }
+void vp_tls_fsb_setup(void* tls) { TLSData* t = (TLSData*)tls; t->memPool = defaultMemPool; t->freeSlabBlocks.head.store(nullptr, std::memory_order_relaxed); t->freeSlabBlocks.size = 0; t->freeSlabBlocks.backend = &defaultMemPool->extMemPool.backend; }
+void* vp_tls_fsb_head(void* tls) { return ((TLSData*)tls)->freeSlabBlocks.head.load(std::memory_order_relaxed); }
+int vp_tls_fsb_size(void* tls) { return ((TLSData*)tls)->freeSlabBlocks.size; }
+unsigned long vp_block_backref(void* b) { return idx_bits(*((Block*)b)->getBackRefIdx()); }
+void* vp_block_pool(void* b) { return ((Block*)b)->poolPtr; }
+void* vp_block_tls(void* b) { return ((Block*)b)->tlsPtr.load(std::memory_order_relaxed); }
+unsigned vp_block_objsize(void* b) { return ((Block*)b)->objectSize; }
+void* vp_block_bump(void* b) { return ((Block*)b)->bumpPtr; }
+void* vp_block_next(void* b) { return ((Block*)b)->next; }
 }
